@@ -376,7 +376,7 @@ def campaign(run, pid, cases, entries, design_rule, extra_obligations=()):
     return obs, spec_bad, model_bad, nn, npar, reported
 
 
-def engine_check(run, pid, entries, make_cases, rule_text, assumptions):
+def engine_check(run, pid, entries, make_cases, rule_text, assumptions, after=None):
     """Full check for one engine-family property."""
     build_harness()
     regen()
@@ -426,6 +426,12 @@ def engine_check(run, pid, entries, make_cases, rule_text, assumptions):
         "sync.WaitGroup, sync.Mutex and the go statement behave per the Go memory model (a [Par] stage is the set of interleavings of its children, joined before the next stage)",
         "T1 translator (go/ast) reports the statement shapes of engine/gengine.go faithfully; unknown shapes become IUnknown",
         "gate adversary: a held rule keeps its stage open for a quiet period (%d ms); timing can only hide a missing barrier from a round, never invent one" % (25 if run.tier == "quick" else 80)]
+    if after:
+        run.coverage["obligations"] = run.coverage.get("obligations", 0) + 1
+        clean, extra_cov = after(run)
+        if clean:
+            run.coverage["discharged"] += 1
+        run.coverage.update(extra_cov)
     return run.finish()
 
 
